@@ -49,6 +49,32 @@ def main():
         o2 <<= r
         blk = pyrtl.working_block()
         inputs = [we, ra] + ins
+    elif kind == 'names':
+        # names that tie under a natural-sort key (x1 / x01, a / A) and several names the exporter must
+        # sanitise: the emitted text must not depend on the order in which sets happen to iterate
+        pyrtl.reset_working_block()
+        pad = [pyrtl.WireVector(1, 'pad%d' % i) for i in range(rng.randint(0, 5))]
+        for w in pad:
+            w <<= 0
+        names_in = ['x1', 'x01', 'a', 'A', 'in b', 'in-c', 'x001']
+        rng.shuffle(names_in)
+        ins = [Input(rng.randint(1, 4), n) for n in names_in]
+        regs = []
+        for n in rng.sample(['r 1', 'r-2', 'r3', 'R3'], 3):
+            r = Register(4, n)
+            r.next <<= r + ins[rng.randrange(len(ins))]
+            regs.append(r)
+        outs_n = ['o b', 'o-c', 'o1', 'o01', 'O1']
+        rng.shuffle(outs_n)
+        for k, n in enumerate(outs_n):
+            o = Output(5, n)
+            o <<= (ins[k] + regs[k % len(regs)]) ^ ins[(k + 1) % len(ins)]
+        tmp = pyrtl.WireVector(2, 'w 1')
+        tmp <<= ins[0][0:1].zero_extended(2)
+        o = Output(2, 'w-2')
+        o <<= tmp
+        blk = pyrtl.working_block()
+        inputs = ins
     else:
         d = gen.rand_design(rng, profile='small', nops=rng.randint(4, 12), raw=False, nmems=rng.choice([0, 1, 2]),
                             ops=[o for o in gen.OPS_ALL if o != 'nand'])
@@ -68,8 +94,22 @@ def main():
         steps.append(s)
     out = {}
     sim = pyrtl.Simulation(block=blk)
+    conflict = False
+    wnets = sorted((n for n in blk.logic if n.op == '@'), key=str)
     for s in steps:
         sim.step(dict(s))
+        # two enabled write ports, same memory and address, different data: the outcome is unspecified
+        seen = {}
+        for n in wnets:
+            a, dta, en = (sim.inspect(w) for w in n.args)
+            if en:
+                key = (n.op_param[0], a)
+                if key in seen and seen[key] != dta:
+                    conflict = True
+                seen[key] = dta
+    if conflict:
+        print(json.dumps({'skip': 'write-conflict'}))
+        return
     out['trace'] = {k: v for k, v in sorted(sim.tracer.trace.items())}
     for add_reset in (True, False, 'asynchronous'):
         buf = io.StringIO()
